@@ -24,7 +24,7 @@ func allRules() []*Rule {
 		ruleR7(),
 		with(ruleR8(), r8CancelIdentity),
 		ruleR9(),
-		ruleR10(),
+		with(ruleR10(), r10PartialTruncate),
 		with(ruleR11(), r11TagFirst),
 		ruleR12(),
 		ruleR13(),
